@@ -1,2 +1,210 @@
-// Package c06: monitor for property C06 (see DESIGN.md section 2).
+// Package c06: the key-value API of pkg/database is linearizable and conditional writes are atomic.
+//
+// Rounds of 4-16 concurrent clients run PRNG programs (Set, multi-key Set, conditional Set,
+// Delete, ExecAll, SetReference, ZAdd, Get incl. SinceTx/AtTx/AtRevision, GetAll, Scan, ZScan,
+// History, Count) on one database.DB over a small key set with unique values, while a
+// maintenance goroutine flushes/compacts the indexes and the verifhook points perturb the commit
+// path and the indexer. Call/return tickets come from one atomic counter at the client boundary.
+// Two oracles judge each round: a commit-order checker (the write order is the tx ids the API
+// returned; every read must equal one state S[p] inside its window, conditional writes are judged
+// on S[t-1]) and porcupine on the single-key projections.
 package c06
+
+import (
+	"encoding/json"
+	"fmt"
+	"math/rand/v2"
+	"os"
+	"strconv"
+	"time"
+
+	"github.com/codenotary/immudb/embedded/store"
+	"github.com/codenotary/immudb/pkg/database"
+
+	"verifharness/internal/fw"
+	"verifharness/internal/hook"
+	"verifharness/internal/sth"
+)
+
+func init() { fw.RegisterMonitor("C06", "exploration", Run) }
+
+type caseSpec struct {
+	Idx        int
+	Rounds     int
+	Synced     bool
+	Compaction bool // CompactIndex runs in the maintenance goroutine (a fifth of the cases)
+	FlushThld  int
+	CompThld   int
+	Perturb    float64
+	MaxSleepUs int
+	MaxClients int
+	MaxOps     int
+	VLogCache  int
+}
+
+func (cs caseSpec) String() string {
+	return fmt.Sprintf("case %d synced=%v compaction=%v flushThld=%d perturb=%.2f/%dus", cs.Idx, cs.Synced, cs.Compaction, cs.FlushThld, cs.Perturb, cs.MaxSleepUs)
+}
+
+func genCase(r *rand.Rand, i, rounds int) caseSpec {
+	return caseSpec{
+		Idx: i, Rounds: rounds,
+		Synced:     i%4 == 3,
+		Compaction: i%5 == 2,
+		FlushThld:  pick(r, []int{8, 30, 100, 1000}),
+		CompThld:   1 + r.IntN(2),
+		Perturb:    pick(r, []float64{0.05, 0.2, 0.4}),
+		MaxSleepUs: pick(r, []int{0, 100, 400}),
+		MaxClients: 16, MaxOps: 40,
+		VLogCache: pick(r, []int{0, 16, 256}),
+	}
+}
+
+func openDB(dir string, cs caseSpec) (database.DB, error) {
+	so := store.DefaultOptions().
+		WithMaxTxEntries(16).WithMaxKeyLen(128).WithMaxValueLen(256).
+		WithMaxConcurrency(40).WithMaxIOConcurrency(2).
+		WithSynced(cs.Synced).WithSyncFrequency(time.Millisecond).
+		WithVLogCacheSize(cs.VLogCache).
+		WithLogger(sth.QuietLogger())
+	so.WithIndexOptions(so.IndexOpts.WithFlushThld(cs.FlushThld).WithSyncThld(cs.FlushThld * 4).WithCompactionThld(cs.CompThld).WithMaxActiveSnapshots(200))
+	opts := database.DefaultOptions().WithDBRootPath(dir).WithStoreOptions(so)
+	return database.NewDB("c06db", nil, opts, sth.QuietLogger())
+}
+
+func envInt(name string, def int) int {
+	if v := os.Getenv(name); v != "" {
+		if n, err := strconv.Atoi(v); err == nil {
+			return n
+		}
+	}
+	return def
+}
+
+func runCase(c *fw.Ctx, cs caseSpec) {
+	dir := c.Dir("c06")
+	defer os.RemoveAll(dir)
+	rn := &runner{c: c}
+	h := hook.Install(&hook.Config{Seed: c.Seed*1000 + int64(cs.Idx), Perturb: cs.Perturb, MaxSleep: time.Duration(cs.MaxSleepUs) * time.Microsecond,
+		OnNote: func(site string, a, b uint64, _ [32]byte) {
+			switch site {
+			case "store.issued":
+				atomicMax(&rn.issued, a)
+			case "store.committed":
+				atomicMax(&rn.committed, a)
+			}
+		}})
+	defer hook.Uninstall()
+	db, err := openDB(dir, cs)
+	if err != nil {
+		c.Inconclusive("cannot create the database: " + err.Error())
+		return
+	}
+	rn.db = db
+	defer db.Close()
+
+	seq := envInt("VERIF_C06_SEQ", 0) == 1 // development: one client, every read has a one-point window
+	judged := 0
+	var compactions []int64
+	for round := 0; round < cs.Rounds; round++ {
+		r := fw.NewRand(c.Seed, fmt.Sprintf("c06/case%d/round%d", cs.Idx, round))
+		pl := genRound(r, cs.Idx, round, cs.MaxClients, cs.MaxOps)
+		if seq {
+			pl.Clients = pl.Clients[:1]
+		}
+		t0 := time.Now()
+		res := rn.runRound(pl, c.Seed, cs.Idx, cs.Compaction)
+		compactions = append(compactions, res.Compactions...)
+		c.Count("ms_running", time.Since(t0).Milliseconds())
+		c.Count("rounds", 1)
+		c.Count("operations", int64(len(res.Recs)))
+		if res.Broken != "" {
+			c.Inconclusive(fmt.Sprintf("[%s round %d] %s", cs, round, res.Broken))
+			break
+		}
+		ck := &checker{c: c, res: res, cfg: cs.String(), refKeys: map[string]bool{}, compactions: compactions}
+		for _, k := range pl.Refs {
+			ck.refKeys[k] = true
+		}
+		t1 := time.Now()
+		ok := ck.checkRound()
+		c.Count("ms_commit_order_checker", time.Since(t1).Milliseconds())
+		if ok {
+			judged++
+			c.Count("rounds_judged", 1)
+			t2 := time.Now()
+			ck.porcupineRound()
+			c.Count("ms_porcupine", time.Since(t2).Milliseconds())
+			if round == 0 {
+				nw, nr := 0, 0
+				for _, rc := range res.Recs {
+					if isWrite(rc.Op.Kind) {
+						nw++
+					} else {
+						nr++
+					}
+				}
+				c.Sample(map[string]any{"config": cs.String(), "round": round, "clients": len(pl.Clients), "plain_keys": len(pl.Plain), "ref_keys": len(pl.Refs), "sorted_sets": len(pl.ZSets),
+					"writes": nw, "reads": nr, "txs": res.Last - res.Base})
+			}
+		}
+		if n := rn.timeouts.Load(); n > 0 {
+			c.Inconclusive(fmt.Sprintf("[%s round %d] %d operations did not return within %s: the database stopped making progress", cs, round, n, opTimeout))
+			break
+		}
+		if c.Violations() >= 6 {
+			break // enough witnesses from this case
+		}
+	}
+	hits := h.Hits()
+	hm := map[string]uint64{}
+	for k, v := range hits {
+		hm[k] = v
+	}
+	c.Set("hook_site_hits", hm)
+	if hits["note:store.issued"] == 0 || hits["note:store.committed"] == 0 || hits["indexer.indexSince.beforeInsert"] == 0 {
+		c.Inconclusive("hook sites never reached: was the harness built with -tags verif?")
+	}
+	if n := rn.otherErrs.Load(); n > 0 {
+		c.Count("undocumented_errors", n)
+	}
+}
+
+func init() {
+	fw.RegisterIsolated("c06-case", func(c *fw.Ctx, data []byte) {
+		var cs caseSpec
+		if err := json.Unmarshal(data, &cs); err != nil {
+			c.Inconclusive("bad case: " + err.Error())
+			return
+		}
+		runCase(c, cs)
+	})
+}
+
+func Run(c *fw.Ctx) {
+	c.Rule = "rounds of 4-16 concurrent clients x <=40 PRNG operations (16 kinds) on one database.DB over 4-12 keys with unique values, with background flush/compaction and hook-point perturbation, batches of rounds isolated per child process; " +
+		"an evaluation is one oracle decision: a read matched against the states S[p] of its window (one p for all keys of a multi-key read), a write's real-time order and conditions on S[t-1], a refusal's window, a final History against the acknowledged writes, or one porcupine verdict on a single-key projection; " +
+		"distinct = (operation kind:outcome x operation kind:outcome) pairs observed concurrently on a common key, plus shapes of porcupine partitions checked"
+	c.Assume("the tx id in the header returned by a write is its position in commit order (C02 checks ids and the chain)")
+	c.Assume("store.committed / store.issued notes bound the committed frontier from below before a call and the issued frontier from above after a return")
+	c.Assume("Count may or may not include keys whose latest version is a deletion; a read with SinceTx may return any state at or after that tx")
+	r := c.Rand("c06/cases")
+	ncase, rounds := c.N(20, 100), c.N(20, 100)
+	if v := envInt("VERIF_C06_CASES", 0); v > 0 {
+		ncase = v
+	}
+	if v := envInt("VERIF_C06_ROUNDS", 0); v > 0 {
+		rounds = v
+	}
+	var cases [][]byte
+	for i := 0; i < ncase; i++ {
+		b, _ := json.Marshal(genCase(r, i, rounds))
+		cases = append(cases, b)
+	}
+	c.RunIsolated("c06-case", cases, fw.CasesOpts{Workers: 10, CaseTimout: 15 * time.Minute})
+	if envInt("VERIF_C06_DEBUG", 0) == 1 {
+		for _, k := range []string{"rounds", "rounds_judged", "operations", "ms_running", "ms_commit_order_checker", "ms_porcupine", "porcupine_partitions", "porcupine_operations", "compactions", "flushes", "maintenance_errors", "concurrent_pairs_on_a_key", "read_conflicts", "open_writes_resolved", "undocumented_errors", "unexpected_refusals"} {
+			fmt.Fprintf(os.Stderr, "  %s=%d\n", k, c.Counter(k))
+		}
+	}
+}
